@@ -276,7 +276,8 @@ INVALID_KINDS = ['none_given', 'area+amplitude', 'flat_area+amplitude', 'area+fl
                  'amplitude+dur+flat', 'channel', 'area_dur_short', 'area_dur_le_rise', 'area_dur_between',
                  'amp_dur_short', 'amp_dur_short', 'amp_beyond', 'slew_rise_beyond', 'slew_fall_beyond',
                  'area_beyond_grad', 'area_beyond_slew', 'flat_area_beyond', 'zero_ramps', 'zero_rise_only',
-                 'negative_time', 'negative_time', 'negative_time', 'flat_area_no_flat_ramps', 'area_dur_flat']
+                 'negative_time', 'negative_time', 'negative_time', 'flat_area_no_flat_ramps', 'area_dur_flat',
+                 'limit_and_timing', 'limit_and_timing']
 
 
 def gen_invalid(rng, kind=None):
@@ -465,6 +466,27 @@ def gen_invalid(rng, kind=None):
         r = ramp()
         a['rise_time'] = rng.choice([r, -r, r])
         a['fall_time'] = rng.choice([None, r, -r, tm(r + R)])
+    elif kind == 'limit_and_timing':
+        # both a limit violation and an invalid timing: the limit tests come first in the code
+        which = rng.choice(['amp+short', 'amp+negflat', 'slew+negflat', 'slew+short', 'fallslew+negrise'])
+        if which.startswith('amp'):
+            a['amplitude'] = sgn * sig(G * rng.uniform(1.05, 3), 6)
+        else:
+            a['amplitude'] = sgn * sig(G * rng.uniform(0.3, 0.9), 6)
+        need = abs(a['amplitude']) / S
+        good = tm((math.ceil(need / R) + 2) * R)
+        bad = tm(need * rng.uniform(0.2, 0.9)) or 1e-9
+        if which == 'amp+short':
+            a['duration'] = tm(need)                      # chosen ramps alone are >= 2*need
+        elif which == 'amp+negflat':
+            a['flat_time'] = -dur()
+        elif which == 'slew+negflat':
+            a['rise_time'], a['flat_time'] = bad, -dur()
+        elif which == 'slew+short':
+            a['rise_time'], a['fall_time'] = bad, good
+            a['duration'] = tm((bad + good) / 2)
+        else:
+            a['rise_time'], a['fall_time'], a['flat_time'] = -good, bad, dur()
     elif kind == 'area_dur_flat':
         # area + duration + flat_time + rise_time: the code takes the flat_time branch and ignores `duration`
         r = ramp()
